@@ -74,26 +74,17 @@ def tlvs (bs : Bytes) : List RawAttr × Bool :=
   | [] => ([], true)
   | [_] => ([], false)
   | flags :: code :: rest =>
-      if flags / 16 % 2 = 1 then
-        if h : rest.length < 2 then ([], false)
-        else
-          let alen := beNat (rest.take 2)
-          if h2 : rest.length < 2 + alen then ([], false)
-          else
-            let r := tlvs (rest.drop (2 + alen))
-            (⟨flags, code, (rest.drop 2).take alen⟩ :: r.1, r.2)
+      -- width of the length field: two octets with the EXTENDED-LENGTH flag, else one
+      let w := if flags / 16 % 2 = 1 then 2 else 1
+      if _h : rest.length < w then ([], false)
       else
-        match rest with
-        | [] => ([], false)
-        | alen :: rest' =>
-            if h2 : rest'.length < alen then ([], false)
-            else
-              let r := tlvs (rest'.drop alen)
-              (⟨flags, code, rest'.take alen⟩ :: r.1, r.2)
+        let alen := beNat (rest.take w)
+        if _h2 : rest.length < w + alen then ([], false)
+        else
+          let r := tlvs (rest.drop (w + alen))
+          (⟨flags, code, (rest.drop w).take alen⟩ :: r.1, r.2)
 termination_by bs.length
-decreasing_by
-  all_goals simp [List.length_drop]
-  all_goals omega
+decreasing_by simp [List.length_drop]; omega
 
 structure Sections where
   withdrawn : Bytes
@@ -223,37 +214,27 @@ def attrLoop (twoByte : Bool) : ASt → List RawAttr → Option ASt
     | none => none
     | some st' => attrLoop twoByte st' rs
 
-/-- `Ipv4Net::decode` / `Ipv6Net::decode` list walk of `decode_nlri_list`; `none` = `Err` (3,1).
-    `alen` = 4 or 16. -/
+/-- `decode_nlri_list` for `Ipv4Net::decode` / `Ipv6Net::decode`; `none` = `Err` (3,1).
+    Per entry: 4-byte path id when add-path is on (`len < 4` ⇒ error), the length octet (`read_u8` on an empty
+    reader ⇒ error), `len < bit_len.div_ceil(8) || bit_len > 32|128` ⇒ error, then `div_ceil(8)` address
+    bytes (a short read ⇒ error); the decoded address is zero-padded to 4 / 16 bytes. -/
 def ipNlriList (v6 addpath : Bool) (bs : Bytes) : Option (List DEntry) :=
-  match hbs : bs with
-  | [] => some []
-  | _ :: _ =>
-      let alen := if v6 then 16 else 4
-      if addpath ∧ bs.length < 4 then none
+  if hbs : bs.length = 0 then some []
+  else
+    let alen := if v6 then 16 else 4
+    let hdr := if addpath then 4 else 0
+    if _h : bs.length < hdr + 1 then none
+    else
+      let pid := if addpath then beNat (bs.take 4) else 0
+      let bits := beNat ((bs.drop hdr).take 1)
+      if _h2 : bits > 8 * alen ∨ bs.length < hdr + 1 + ceil8 bits then none
       else
-        let pid := if addpath then beNat (bs.take 4) else 0
-        let bs1 := if addpath then bs.drop 4 else bs
-        match hb1 : bs1 with
-        | [] => none                                   -- `c.read_u8()?` on an empty reader
-        | bits :: rest =>
-            -- `len < bit_len.div_ceil(8) || bit_len > 32`, `len` counting the length byte too
-            if bs1.length < ceil8 bits ∨ bits > 8 * alen then none
-            else if rest.length < ceil8 bits then none  -- a later `c.read_u8()?` fails
-            else
-              match ipNlriList v6 addpath (rest.drop (ceil8 bits)) with
-              | none => none
-              | some l =>
-                  some (.ip v6 (rest.take (ceil8 bits) ++ List.replicate (alen - ceil8 bits) 0) bits pid :: l)
+        match ipNlriList v6 addpath (bs.drop (hdr + 1 + ceil8 bits)) with
+        | none => none
+        | some l =>
+            some (.ip v6 ((bs.drop (hdr + 1)).take (ceil8 bits) ++ List.replicate (alen - ceil8 bits) 0) bits pid :: l)
 termination_by bs.length
-decreasing_by
-  have h1 : bs1.length ≤ bs.length := by
-    simp only [bs1]; split <;> simp [List.length_drop]
-  have h2 : rest.length < bs1.length := by rw [hb1]; simp
-  simp [List.length_drop]
-  rw [hbs] at h1
-  simp at h1
-  omega
+decreasing_by simp [List.length_drop]; omega
 
 def isIpFam (f : Fam) : Option Bool :=
   if f.afi = 1 ∧ (f.safi = 1 ∨ f.safi = 2) then some false
@@ -515,9 +496,8 @@ def parseUpdate (od : OpaqueDec) (c : Codec) (buf : Bytes) : DRes :=
                       match nhR with
                       | none => .inl (.err 3 9)
                       | some nh =>
-                          -- `c.read_u8().unwrap()` (SNPA count)
-                          if b.length < 5 + nhl + 1 then .inl .panic
-                          else match nlriList od f rx true (b.drop (5 + nhl)) with
+                          -- `c.read_u8().unwrap()` (SNPA count) cannot fail: 5 + nhl ≤ len was checked
+                          match nlriList od f rx true (b.drop (5 + nhl)) with
                             | .err => .inl (.err 3 1)
                             | .panic => .inl .panic
                             | .ok l => .inr (some (f, nh, l))
